@@ -337,8 +337,14 @@ func verifHosts(l *roundRobinLoadBalancer) []*Host { return l.hosts.Load().([]*H
 //@ iface proxycore.Request.IsPrepareRequest
 //@   modifies nothing
 
-//@ func proxycore.pendingRequests.closing [C01]
-//@   trusted
+// closing: every request of the table is told, with no lock held; what Range hands to the callback is an
+// entry of the table (assumed of sync.Map.Range), hence a well-formed, non-nil Request. That Range visits
+// every entry is not stated (no contract on Range beyond "calls f on entries").
+//@ func proxycore.pendingRequests.closing$1 [C01, C17, C18]
+//@   requires an-entry-of-the-table: typeis(value, Request) && reqOK(value)
+//@   requires no-lock-held: nolocks() [C18]
+//@   modifies *
+//@ func proxycore.pendingRequests.closing [C01, C17, C18]
 //@   requires p != nil
 //@   requires no-lock-held: nolocks() [C18]
 //@   modifies *
